@@ -37,6 +37,9 @@ RECURSIVE SumSz(_)
 SumSz(S) == IF S = {} THEN 0 ELSE LET x == CHOOSE y \in S : TRUE IN (x.hi - x.lo) + SumSz(S \ {x})
 \* reservations of concurrently running tasks never overlap, exist only while locked, and account for pstack
 Disjoint       == \A a, b \in resv : a # b => (a.hi <= b.lo \/ b.hi <= a.lo)
+\* every reservation lies below the current top; with reservations made at the top (SAllocSz) this is the inductive
+\* form of Disjoint, linear in |resv| (the trace specification checks it instead of the quadratic Disjoint)
+BelowTop       == \A r \in resv : r.lo >= 0 /\ r.hi <= pstk
 ResvOnlyLocked == resv # {} => locked
 TopIsSum       == pstk = SumSz(resv)
 \* when a dispatch has returned, every task's slice has been written exactly by running the task
